@@ -58,7 +58,11 @@ def gen_case(rng, thorough, timed):
     if rng.random() < 0.5:
         ops.append({"op": "reload"}); ops += observe()
     if timed:
+        # a caller that keeps its map and writes the very same object again later: the second write counts from ITS time
+        hb = {"k": "hb", "v": 1, "ttl": rng.choice([100000, "2000m"])}
+        ops.insert(rng.randint(0, len(ids)), {"op": "addFact", "id": "hb", "fact": dict(hb), "keepAs": "hb"})
         ops.append({"op": "sleep", "ms": 4100})
+        ops.append({"op": "addFact", "id": "hb", "fact": dict(hb), "reuse": "hb"})
         if rng.random() < 0.5: ops.append({"op": "reload"})
         ops += observe()
         ops += observe()     # once unobservable, always unobservable; purged from storage
